@@ -18,9 +18,13 @@ import (
 type c12Spec struct {
 	depth int
 	pairs bool
+	small string // "" or the name of a small alphabet explored deeper
 }
 
 func (s c12Spec) name() string {
+	if s.small != "" {
+		return fmt.Sprintf("seq/%s/d%d", s.small, s.depth)
+	}
 	if s.pairs {
 		return fmt.Sprintf("seq/singles+pairs/d%d", s.depth)
 	}
@@ -32,7 +36,7 @@ var c12Keys = []string{"a", "b", "c"}
 func (s c12Spec) newState() eng.SeqState {
 	w := model.NewWorld(model.Config{Cols: []model.ColDef{{Name: "key", Kind: "key"}, {Name: "v", Kind: "int"}}})
 	return &worldState{w: w, ops: s.ops, check: func(w *model.World) []eng.Violation {
-		return w.Check(model.Obs{Values: true, Keys: c12Keys})
+		return w.Check(model.Obs{Values: true, Keys: append([]string{""}, c12Keys...)})
 	}}
 }
 
@@ -66,7 +70,35 @@ func c12Singles(w *model.World) (out []c12Op) {
 	return out
 }
 
+// small alphabets, explored much deeper: offset re-use and re-keying need five or
+// six steps to bring the lookup table and the per-offset remnants out of step
+func c12Small(w *model.World, which string) (out []opx) {
+	set := []model.Write{{Col: "v", V: model.Val{N: 1}}}
+	keys := []string{"a", "b", "c"}
+	if which == "empty-key" {
+		keys = []string{"", "a"}
+	}
+	for _, k := range keys {
+		out = append(out, txnOp(w, []model.Act{{Op: "insertkey", Key: k, W: set}}, false))
+	}
+	for _, k := range keys {
+		out = append(out, txnOp(w, []model.Act{{Op: "deletekey", Key: k}}, false))
+	}
+	if which == "insert-delete-rekey" {
+		out = append(out, txnOp(w, []model.Act{{Op: "rekey", Key: "b", NewKey: "a"}}, false))
+		out = append(out, txnOp(w, []model.Act{{Op: "rekey", Key: "a", NewKey: "c"}}, false))
+	}
+	if which == "empty-key" {
+		out = append(out, txnOp(w, []model.Act{{Op: "upsertkey", Key: "", W: set}}, false))
+		out = append(out, txnOp(w, []model.Act{{Op: "rekey", Key: "a", NewKey: ""}}, false))
+	}
+	return out
+}
+
 func (s c12Spec) ops(w *model.World) (out []opx) {
+	if s.small != "" {
+		return c12Small(w, s.small)
+	}
 	singles := c12Singles(w)
 	for _, o := range singles {
 		out = append(out, txnOp(w, []model.Act{o.act}, false))
@@ -113,9 +145,9 @@ func (s c12Spec) ops(w *model.World) (out []opx) {
 }
 
 func c12SeqUnits(tier string) (units []eng.Unit) {
-	specs := []c12Spec{{3, false}, {2, true}}
+	specs := []c12Spec{{3, false, ""}, {2, true, ""}, {6, false, "insert-delete-rekey"}, {6, false, "empty-key"}}
 	if tier != "quick" {
-		specs = []c12Spec{{4, false}, {3, true}}
+		specs = []c12Spec{{4, false, ""}, {3, true, ""}, {8, false, "insert-delete-rekey"}, {8, false, "empty-key"}}
 	}
 	for _, s := range specs {
 		s := s
@@ -141,9 +173,9 @@ func init() {
 		Budget: budget(170*time.Second, 28*time.Minute),
 		Bounds: func(tier string) map[string]any {
 			if tier == "quick" {
-				return map[string]any{"seq_depth": "3 (singles), 2 (with all ordered pairs)", "keys": c12Keys, "preemption_bound": 2}
+				return map[string]any{"seq_depth": "3 (singles), 2 (with all ordered pairs), 6 (small alphabets: insert/delete/re-key on 3 keys; empty-string key)", "keys": c12Keys, "preemption_bound": 2}
 			}
-			return map[string]any{"seq_depth": "4 (singles), 3 (with all ordered pairs)", "keys": c12Keys, "preemption_bound": 3}
+			return map[string]any{"seq_depth": "4 (singles), 3 (with all ordered pairs), 8 (small alphabets)", "keys": c12Keys, "preemption_bound": 3}
 		},
 		Units: func(tier string) []eng.Unit { return append(c12SeqUnits(tier), c12SchedUnits(tier)...) },
 	})
